@@ -18,6 +18,13 @@ CHECKS = {
              "by a correspondence check: the executable model and the real MAB are run on the same generated histories and "
              "must agree on predict_expectations, arms, and every sampler request (kind, stream, parameters).",
         ref="7 (C01)"),
+    "C03": dict(
+        text="Lean 4 proof (full for exact metrics): radius_exact (selected rows = exactly those within the radius, boundary included), "
+             "knn_override_valid (an alternative tie-break is accepted only if it is a valid set of k nearest rows), nhood_from_scratch "
+             "(the reused worker copy behaves like a fresh policy fit on the selected rows - via fit_discards), NaN invariant for empty "
+             "neighbourhoods across add_arm/remove_arm. Correspondence with radii on realised distances and ties at k; twin against a "
+             "fresh learning policy on the oracle-selected rows.",
+        ref="7 (C03)"),
     "C05": dict(
         text="Lean 4 proof (partial): partition_exact_cover (for all n>=1, n_jobs!=0, cpu: sizes positive, sum n, starts = prefix sums), "
              "chunked_map / predict_any_partition (every contiguous partition with a row-local worker gives the row-wise results), "
@@ -45,6 +52,18 @@ CHECKS = {
              "remembered last Thompson draw (never read). Worker deep copies are values in the model; their privacy in the code is tied by "
              "correspondence and by queried-vs-unqueried twins with random-stream positions copied across, n_jobs in {1,2}.",
         ref="7 (C10)"),
+    "C11": dict(
+        text="Lean 4 proof (full for n_dimensions <= 53): hash_scale_invariant (c>0 changes no sign, hence no hash code), "
+             "hash_zero_projection, planes_fixed_at_fit, lsh_partial_hist (offsets), lsh_nhood_union (neighbourhood = de-duplicated union "
+             "of the query's buckets over the tables). Correspondence with planes from the recorded standard_normal draws; twin against the "
+             "collision set computed from table_to_plane, scaling metamorphic, n_jobs in {1,2,3} for hashing.",
+        ref="7 (C11)"),
+    "C12": dict(
+        text="Lean 4 proof (full modulo the assignment oracle): clusters_cell_rows / clusters_cell_from_scratch (each cluster's policy = fresh "
+             "policy fit on exactly the stored rows labelled with it), clusters_query_cell, tree_unobserved_arm (0 without observations), "
+             "tree leaf bookkeeping. k-means and CART are trusted oracles. Correspondence with labels_/predict/apply read from sklearn; twin "
+             "against a fresh policy on the query's cell / the leaf statistic.",
+        ref="7 (C12)"),
     "C13": dict(
         text="Lean 4 proof (full modulo distance oracle): ws_pairs_spec, ws_target, ws_untouched, cold_arms_spec - only cold arms change, "
              "each gets an exact copy of its closest trained arm within the quantile threshold, other arms keep state and status. "
